@@ -201,6 +201,7 @@ pub fn run_c10(ctx: &mut Ctx) -> Vec<Violation> {
         ctx.sample("server", 1, &(c.seed.clone(), c.restarts, c.reqs.len()));
         check_server_identity(ctx, c)
     }));
+    out.extend(super::procs::c10_process_part(ctx));
     out
 }
 
@@ -209,6 +210,7 @@ pub fn replay_c10(ctx: &mut Ctx, sub: &str, case: &Value) -> Res {
     match sub {
         "library" => replay_case::<IdCase, _>(ctx, case, |ctx, c| check_identity(ctx, c)),
         "server" => replay_case::<SrvIdCase, _>(ctx, case, |ctx, c| check_server_identity(ctx, c)),
+        "real-binary" => super::procs::c10_replay(ctx, case),
         _ => Err(viol("bad-replay-file", format!("unknown sub {}", sub))),
     }
 }
